@@ -454,6 +454,7 @@ func (g *Gen) applyContract(t callTarget, c *ssa.CallCommon, args []string, recv
 	ct := t.contract
 	sig := t.sig
 	pre := h
+	preAssumes := len(g.vc.assumes)
 	envPre := g.calleeEnv(t, c, args, recv, pre, pre)
 	for _, l := range ct.Lets {
 		v, err := envPre.EvalVal(l.E)
@@ -590,7 +591,7 @@ func (g *Gen) applyContract(t callTarget, c *ssa.CallCommon, args []string, recv
 		g.vc.AssumeAt(guard, Eq(nestedSelect(cur, c.addrs), v.T), "ghost update of "+t.key+": "+sd.Target)
 	}
 	// vacuity guard: the state after the call must be reachable under the assumed contract
-	g.vc.Covers = append(g.vc.Covers, CoverPoint{Guard: guard, NAssumes: len(g.vc.assumes), What: "after call to " + t.key + " at " + g.pos(pos)})
+	g.vc.Covers = append(g.vc.Covers, CoverPoint{Guard: guard, NAssumes: len(g.vc.assumes), PreAssumes: preAssumes, What: "after call to " + t.key + " at " + g.pos(pos)})
 	return post, results
 }
 
